@@ -85,8 +85,10 @@ def execute(stream, chunks, mode="drain"):
         w.run()
         for ch in chunks:
             c.add_in_bytes(ch)
-            if mode == "drain":
+            if mode in ("drain", "pause"):
                 w.run()
+            if mode == "pause":
+                w.advance(6)        # the sender pauses: the reader's poll of its input queue (5 s) expires with the bytes so far
         w.run()
         readers = [t for t in w.threads if t.kind == "work_read_queue"]
         if len(readers) != 1:
@@ -189,6 +191,8 @@ def work(args):
     outcomes = set()
     for desc, chunks in cut_patterns(frames, tier, None):
         modes = ("drain", "queued") if desc[0] in ("whole", "every") or (desc[0] == "1cut" and len(b"".join(frames)) <= 200) else ("drain",)
+        if desc[0] == "1cut" or (desc[0] == "every" and desc[1] >= 64):
+            modes += ("pause",)
         for mode in modes:
             obs = execute(kinds, chunks, mode)
             n += 1
@@ -245,7 +249,8 @@ def run(tier):
                     "rule": "streams = all sequences (<=2 quick / <=3 thorough frames) over {dwr, header-only, cer, 3 KiB request, "
                             "2 undecodable-body frames} + one malformed-length frame {0..19, real-4, real+4} at every position; "
                             "cuts = every 1-cut, every 2-cut (short streams) or every pair of boundary/header-end neighbourhoods, "
-                            "fixed chunk sizes incl. byte-at-a-time; distinct = distinct (delivered, reader status, closed) per stream",
+                            "fixed chunk sizes incl. byte-at-a-time; chunks handed over one by one, all at once, or (1-cuts, chunk sizes >= 64) with a 6 s pause of the sender "
+                            "after each chunk; distinct = distinct (delivered, reader status, closed) per stream",
                     "exhaustive": True})
     rep.assumptions += ["the environment feeds PeerConnection.add_in_bytes like Node._handle_connections does",
                         "spin = more than 3000 loop back-edges in diameter.node code without a scheduling point"]
@@ -257,7 +262,7 @@ def replay(case):
     frames, expected = build_stream(kinds)
     want = case["cuts"]
     for desc, chunks in cut_patterns(frames, "thorough", None):
-        for mode in ("drain", "queued"):
+        for mode in ("drain", "queued", "pause"):
             if list(desc) + [mode] == want:
                 obs = execute(kinds, chunks, mode)
                 obs2 = execute(kinds, chunks, mode)
